@@ -38,6 +38,12 @@ add("C06", "vp_buf (+ libFuzzer target rb in the thorough tier)",
     "Trusted: the VecDeque model, std's unsafe-precondition checks (debug-assertion build), ASan in the fuzz tier. Capacities above the enumerated bound are covered by random histories only.",
     "DESIGN.md §4 C06")
 
+add("C10", "vp_buf (+ libFuzzer target slice in the thorough tier)",
+    "bounded-exhaustive enumeration + proptest with pointer/length/content oracles and a counting allocator",
+    "Every N in 1..=32 x six formats (1/2/4/8-byte, incl. newtypes) x every length 0..=2N+1 x shared/mutable/boxed through every entry point (free functions and trait methods), plus random lengths up to 4096: Some iff N divides L, L/N frames, same memory, frame i channel c == sample i*N+c, a write through the mutable view changes exactly that sample, inverse view restores pointer and length; boxed conversions: pointer preserved, zero allocator events on success, every byte released after success-and-drop and after a failed conversion. In-place ops on six frame types: every length pair up to 6x6 and random lengths: equal to the element-wise frame op, and a length mismatch panics with the destination bit-identical.",
+    "Trusted: the counting allocator (self-tested), pointer comparison, std's unsafe-precondition checks in the debug-assertion build.",
+    "DESIGN.md §4 C10")
+
 PENDING_REASON = "check not yet built in this round (design in DESIGN.md §4); nothing is claimed for it until its check is registered"
 
 def main():
